@@ -183,7 +183,9 @@ class Run:
             print('UNDECIDED property=%s obligation=%s %s' % (self.pid, obname, why))
         for e in self.engine_errors:
             print('ENGINE-ERROR property=%s %s' % (self.pid, e))
-        if self.engine_errors:
+        if any(v[2] for v in self.violations):
+            code = 1        # a failing input replayed on the real code stands whatever else went wrong in the run
+        elif self.engine_errors:
             code = 3
         elif self.violations:
             code = 1
